@@ -197,6 +197,42 @@ def gen_ops(rng, profile, maxlen):
     return ops
 
 
+def f4_case(cid, cycles, kind="T"):
+    """Finding C20-F4, production parameters and only the calls LockDB itself makes: life 1 grows the queue to node 3
+    and is consumed (recycled with nodeIndex = 3); life 2 restructures while the tail is in node 1 (queueSize := 512), so
+    node 4 is later allocated with 1024 slots (not 4096); from then on every grow-to-node-5 / remove-a-third cycle makes
+    the restructure free node 5 WITHOUT decrementing nodeIndex (drift +1 per cycle).  After ~60 cycles nodeIndex >= 64 =
+    len(queues) and the Reset inside FreeLongWaitLockQueue panics.  cycles=1 shows the drift (nodeIndex on a nil node)."""
+    ops = []
+    x = 1
+    for _ in range(1800):
+        ops.append("A1.%d" % x)
+        x += 1
+    ops += ["d1", "C1", "f"]
+    live = []
+    for _ in range(300):
+        ops.append("A2.%d" % x)
+        live.append(x)
+        x += 1
+    for _ in range(256):
+        ops.append("X2.%d" % live.pop(0))
+    ops += ["n2", "d2"]
+    for _ in range(cycles):
+        while len(live) < 4900:
+            ops.append("A2.%d" % x)
+            live.append(x)
+            x += 1
+        s, h = len(live), 0
+        while 3 * h < s:
+            ops.append("X2.%d" % live.pop(0))
+            h += 1
+        ops += ["n2", "d2"]
+    ops += ["C2", "f"]
+    line = "%s G %s 4 64 256 8 %s" % (cid, kind, " ".join(ops))
+    return dict(id=cid, T="G", kind=kind, base=4, nodes=64, size=256, maxfree=8, ops=ops, profile="f4-policy", nops=len(ops),
+                line=line, nominimise=True)
+
+
 # ------------------------------------------------------------------ the property as a monitor
 def _args(op):
     a = op[1:]
@@ -334,6 +370,12 @@ def minimise(c, run_go, budget=300):
 
     calls = 0
     n = 2
+    for kd in "wdmfFnNpSRC":      # pre-pass: drop a whole op kind at once
+        cand = [o for o in ops[:-1] if o[0] != kd] + ops[-1:]
+        if len(cand) < len(ops):
+            calls += 1
+            if fails(cand):
+                ops = cand
     while len(ops) >= 2 and calls < budget:
         chunk = max(1, len(ops) // n)
         reduced = False
